@@ -121,6 +121,8 @@ class FileResolver:
             # Yield files matching include patterns (applying gitignore + tool ignore)
             for filename in filenames:
                 filepath = current / filename
+                if filepath.is_symlink():
+                    continue  # Symlinks are not followed during traversal.
                 if not self._include_spec.match_file(filename):
                     continue
                 if self._exceeds_max_size(filepath):
